@@ -35,7 +35,8 @@ pub fn check_digest(t: &dyn Td, w_min: f64, data_points: &[f64], r: &mut FastRng
     let cents = t.centroids();
     let s: f64 = cents.iter().map(|c| c.1).sum();
     let (mn, mx) = (t.min(), t.max());
-    let scale = mn.abs().max(mx.abs()).max(mx - mn);
+    // (a data range that overflows f64 does not make the tolerance infinite)
+    let scale = if (mx - mn).is_finite() { mn.abs().max(mx.abs()).max(mx - mn) } else { mn.abs().max(mx.abs()) };
     let ratio = (s / w_min).max(1.0);
     let tau = 16.0 * f64::EPSILON * scale * ratio;
     let ptol = 16.0 * f64::EPSILON * ratio;
@@ -96,7 +97,7 @@ pub fn check_digest(t: &dyn Td, w_min: f64, data_points: &[f64], r: &mut FastRng
         st.end_excursion_tau = st.end_excursion_tau.max((q0 - mn).abs() / tau).max((q1 - mx).abs() / tau);
     }
     // ---- cdf grid
-    let span = (mx - mn).max(scale * 1e-3).max(1e-300);
+    let span = if (mx - mn).is_finite() { (mx - mn).max(scale * 1e-3).max(1e-300) } else { f64::MAX / 4.0 };
     let mut xs: Vec<f64> = vec![mn, mx, ulp_up(mn), ulp_down(mn), ulp_up(mx), ulp_down(mx), mn - 1.0, mx + 1.0, mn - span, mx + span, f64::MAX, f64::MIN, f64::INFINITY, f64::NEG_INFINITY, mn - 2.0 * tau, mx + 2.0 * tau];
     for i in 0..=1000 {
         xs.push(mn - 0.05 * span + (1.1 * span) * i as f64 / 1000.0);
@@ -313,9 +314,56 @@ fn item(ctx: &Ctx, i: usize, rep: &mut Report) {
     }
 }
 
+/// A handful of points whose magnitude is close to f64::MAX, on both sides of zero, kept as
+/// singleton centroids (delta = 1000): differences of neighbouring means overflow, the values
+/// themselves do not. Only the clauses that do not depend on a finite data range are meaningful
+/// here, and check_digest applies them with a tolerance of a few ulps of max(|min|, |max|).
+fn huge_span(rep: &mut Report) {
+    let sets: [&[f64]; 6] = [
+        &[-1e308, 1e308],
+        &[-1.2e308, 0.9e308],
+        &[-1.7e308, 0.0, 1.7e308],
+        &[f64::MIN, f64::MAX],
+        &[-0.9e308, 0.8e308],
+        &[-1.5e308, -1.0, 2.0, 3.0, 1.6e308],
+    ];
+    for (si, set) in sets.iter().enumerate() {
+        for sf in ALL_SF {
+            for backlog in [0usize, 10] {
+                let label = format!("tdigest({},delta=1000,backlog={},huge-span set #{})", sf.name(), backlog, si);
+                rep.config(&label);
+                let mut st = Stats { consistency_ratio: 0.0, nontie_ratio: 0.0, mono_excursion_tau: 0.0, end_excursion_tau: 0.0, reads: 0 };
+                let mut r = FastRng::new(si as u64 * 31 + backlog as u64);
+                let res = guarded(|| -> Result<(), (String, String)> {
+                    let mut t = make_td(sf, 1000.0, backlog);
+                    for x in set.iter() {
+                        t.insert(*x);
+                    }
+                    check_digest(t.as_ref(), 1.0, set, &mut r, &mut st)
+                });
+                rep.evaluations += st.reads;
+                rep.count("huge_span_digests", 1);
+                let bad = match res {
+                    Ok(Ok(())) => None,
+                    Ok(Err(b)) => Some(b),
+                    Err(msg) => Some((format!("C15/panic/{}", panic_class(&msg)), format!("panicked: {}", msg))),
+                };
+                if let Some((sig, what)) = bad {
+                    rep.violation(format!("{}/{}", sig.replacen("C15/", "C15/huge-span/", 1), sf.name()), format!("{} holding {:?}: {}", label, set, what), json!({"scale": sf, "backlog": backlog, "values": set}));
+                }
+            }
+        }
+    }
+}
+
 pub fn run(ctx: &Ctx) -> Report {
     let n = ctx.tier.pick(6000, 100_000);
-    let mut rep = par_run(ctx, n, |i, rep| item(ctx, i, rep));
+    let mut rep = par_run(ctx, n, |i, rep| {
+        if i == 0 {
+            huge_span(rep);
+        }
+        item(ctx, i, rep)
+    });
     rep.require_events(&["TdQuantileLeft", "TdQuantileInterior", "TdQuantileRight", "TdCdfBelowMin", "TdCdfInterior", "TdCdfRightTail", "TdCdfAtOrAboveMax"]);
     rep
 }
